@@ -291,8 +291,9 @@ package bstree
 //@ lockinv bstree.BsTree : totalOrd(self.comp) && (self.root == nil || valid(self.root, self.comp, repr, keys, vals))
 
 // Traverse: Node.traverse is proved to SEND exactly the items of the subtree, once each, in comparator order (sends
-// are recorded in the call log), and the locking of Traverse is under contract (C01). That the consumer loop of Traverse
-// receives them all, in that order, and hands them to the callback is not decided: channel operations carry no protocol.
+// are recorded in the call log). The goroutine of Traverse (Traverse$1) sends exactly that for the root and then
+// closes the channel; Traverse declares it as the producer stream of its channel (opt go-stream), so the receives of
+// its range loop yield the goroutine's log in order, and every received item is handed to the callback once.
 //@ func (*bstree.Node).traverse
 //@   property C04 C01
 //@   opt nil-receiver
@@ -306,7 +307,7 @@ package bstree
 //@   ghost lposL map[K]int
 //@   ghost lposR map[K]int
 //@   ghost b1 int
-//@   requires b != nil && totalOrd(b.comp) && (n != nil ==> valid(n, b.comp, repr, keys, vals))
+//@   requires b != nil && totalOrd(b.comp) && (n != nil ==> valid(n, b.comp, repr, keys, vals)) && !closed(ch)
 //@   ghost-at traverse#1: lposL = lpos
 //@   ghost-at traverse#1: b1 = logn
 //@   ghost-at traverse#2: lposR = lpos
@@ -320,21 +321,44 @@ package bstree
 //@   call traverse#2 ghost repr = repr; keys = keys; vals = vals
 
 //@ func (*bstree.BsTree).Traverse$1
-//@   property C01
-//@   opt conc-only
+//@   property C04 C01
+//@   opt ghost-out lpos
+//@   calllog
 //@   lock b.mu : none
 //@   ghost-param repr map[*Node]set[*Node]
 //@   ghost-param keys map[*Node]set[K]
 //@   ghost-param vals map[*Node]map[K]V
-//@   requires b != nil
-//@   ensures true
+//@   ghost lpos map[K]int
+//@   requires b != nil && ch != nil && !closed(ch)
+//@   requires[seq] totalOrd(b.comp) && (b.root != nil ==> valid(b.root, b.comp, repr, keys, vals))
+//@   modifies closed(ch)
+//@   ensures closed(ch)
+//@   ensures old(logn) <= logn
+//@   ensures forall q int :: { logf(q) } old(logn) <= q && q < logn ==> logf(q) == ch
+//@   ensures[seq] b.root == nil ==> logn == old(logn)
+//@   ensures[seq] b.root != nil ==> forall q int :: { loga0(q, b.root.Item) } old(logn) <= q && q < logn ==> loga0(q, b.root.Item).Key in keys[b.root] && loga0(q, b.root.Item).Val == vals[b.root][loga0(q, b.root.Item).Key]
+//@   ensures[seq] b.root != nil ==> forall k K :: { k in keys[b.root] } k in keys[b.root] ==> old(logn) <= lpos[k] && lpos[k] < logn && loga0(lpos[k], b.root.Item).Key == k
+//@   ensures[seq] forall q1 int, q2 int :: { loga0(q1, b.root.Item), loga0(q2, b.root.Item) } old(logn) <= q1 && q1 < q2 && q2 < logn ==> call(b.comp, loga0(q1, b.root.Item).Key, loga0(q2, b.root.Item).Key)
 //@   call traverse#1 ghost repr = repr; keys = keys; vals = vals
 
 //@ func (*bstree.BsTree).Traverse
-//@   property C01
-//@   opt conc-only
+//@   property C04 C01
+//@   opt go-stream ch
+//@   calllog
 //@   lock b.mu : none
-//@   requires fn != nil
-//@   ensures true
+//@   ghost-param repr map[*Node]set[*Node]
+//@   ghost-param keys map[*Node]set[K]
+//@   ghost-param vals map[*Node]map[K]V
+//@   ghost lpos map[K]int
+//@   requires b != nil && fn != nil
+//@   requires[seq] totalOrd(b.comp) && (b.root != nil ==> valid(b.root, b.comp, repr, keys, vals))
+//@   ensures[seq] old(logn) <= logn && (b.root == nil ==> logn == old(logn))
+//@   ensures[seq] forall q int :: { logf(q) } old(logn) <= q && q < logn ==> logf(q) == fn
+//@   ensures[seq] b.root != nil ==> forall q int :: { loga0(q, b.root.Item) } old(logn) <= q && q < logn ==> loga0(q, b.root.Item).Key in keys[b.root] && loga0(q, b.root.Item).Val == vals[b.root][loga0(q, b.root.Item).Key]
+//@   ensures[seq] b.root != nil ==> forall k K :: { k in keys[b.root] } k in keys[b.root] ==> old(logn) <= old(logn) + lpos[k] && old(logn) + lpos[k] < logn && loga0(old(logn) + lpos[k], b.root.Item).Key == k
+//@   ensures[seq] forall q1 int, q2 int :: { loga0(q1, b.root.Item), loga0(q2, b.root.Item) } old(logn) <= q1 && q1 < q2 && q2 < logn ==> call(b.comp, loga0(q1, b.root.Item).Key, loga0(q2, b.root.Item).Key)
+//@   call Traverse$1#1 ghost repr = repr; keys = keys; vals = vals
 //@ loop 1
-//@   invariant true
+//@   invariant recvn(ch) <= streamn(ch) && logn == old(logn) + recvn(ch)
+//@   invariant[seq] forall q int :: { logf(q) } old(logn) <= q && q < logn ==> logf(q) == fn
+//@   invariant[seq] forall q int :: { loga0(q, b.root.Item) } old(logn) <= q && q < logn ==> loga0(q, b.root.Item) == streamv(ch, q - old(logn), b.root.Item)
